@@ -167,7 +167,8 @@ def run_item(item) -> Acc:
         # a command with nothing to report cannot show a dependence on location or spelling
         raise RuntimeError(f"vacuous C09 project: no baseline violation for {silent}")
     base, root, other, index = _place(parent, depth)
-    cwds = {"root": root, "subdir": root / "tests", "parent": root.parent, "elsewhere": other}
+    # grandparent: the relative spelling of the project then runs THROUGH the parent's name
+    cwds = {"root": root, "subdir": root / "tests", "parent": root.parent, "elsewhere": other, "grandparent": base}
     fails: dict = {}
 
     def check(cmd, cwd_name, spelling, argv_path, kind, expect):
@@ -191,10 +192,10 @@ def run_item(item) -> Acc:
 
     for cmd in cmds:
         # directory target = whole project
-        for cwd_name in ("root", "subdir", "parent", "elsewhere"):
+        for cwd_name in ("root", "subdir", "parent", "elsewhere", "grandparent"):
             sp = _spellings(root, cwds[cwd_name], None)
             for sname, path in sp.items():
-                if not item["full"] and (sname in ("dotted", "trailing", "symlink-abs") or (cwd_name in ("subdir", "parent") and sname != "rel")):
+                if not item["full"] and (sname in ("dotted", "trailing", "symlink-abs") or (cwd_name in ("subdir", "parent", "grandparent") and sname != "rel")):
                     continue
                 check(cmd, cwd_name, sname, path, "root-dir", ref[cmd])
         # file target: this command's own trigger file(s)
@@ -283,7 +284,8 @@ def run_item(item) -> Acc:
 
 def replay_case(case) -> list[dict]:
     base, root, other, index = _place(case["parent"], case["depth"])
-    cwds = {"root": root, "subdir": root / "tests", "parent": root.parent, "elsewhere": other}
+    # grandparent: the relative spelling of the project then runs THROUGH the parent's name
+    cwds = {"root": root, "subdir": root / "tests", "parent": root.parent, "elsewhere": other, "grandparent": base}
     cwd = cwds[case["cwd"]]
     path = case["argv_path"]
     # the recorded path belongs to another scratch directory: rebuild it from the spelling
